@@ -39,7 +39,7 @@ INV_MODEL_C03 = ["TypeOK", "InstanceWellFormed", "LapIsDivGrad", "WeightedDivSum
                  "WeightedLapSymmetric", "WeightedLapNegSemiDef", "KernelIsConstants", "GradExactOnLinear",
                  "CovLapHermitian"]
 INV_MODEL_C04 = ["TypeOK", "GaugeCovariant", "SupercurrentGaugeInvariant"]
-INV_TRACE_C03 = ["TrLapIsDivGrad", "TrWeightedDivSumsToZero", "TrBoundaryFluxIntegrates", "TrWeightedLapSymmetric",
+INV_TRACE_C03 = ["TrAssembledObeyIdentities", "TrLapIsDivGrad", "TrWeightedDivSumsToZero", "TrBoundaryFluxIntegrates", "TrWeightedLapSymmetric",
                  "TrWeightedLapNegSemiDef", "TrKernelIsConstants", "TrGradExactOnLinear", "TrCovLapHermitian"]
 INV_TRACE_C04 = ["TrGaugeCovariant"]
 
@@ -113,6 +113,40 @@ def qint(x, tol=1e-9):
 
 # ------------------------------------------------------------------ concretisation of an exact instance
 
+SOLVER_OPTIONS = ["superlu", "umfpack", "pardiso", "cupy"]      # the documented values of SolverOptions.sparse_solver
+
+
+def assembled_operators(tdgl, mesh):
+    """What MeshOperators.build_operators() ASSEMBLES for every documented value of the sparse_solver option:
+    {option: (divergence, mu_gradient, mu_laplacian, mu_boundary_laplacian, note)} as dense arrays.  The matrices are
+    assigned before any factorisation / backend call, so a missing backend (pypardiso, cupy, umfpack) or an exactly
+    singular factor does not prevent looking at them; what was raised is kept as a note."""
+    import scipy.sparse as sp
+    from tdgl.finite_volume import operators as ops_mod
+    from tdgl.solver.options import SparseSolver
+
+    names = [s.value for s in SparseSolver]
+    if sorted(names) != sorted(SOLVER_OPTIONS):
+        raise core.MachineryFailure(f"sparse_solver options changed: {names} (FVOpsTrace.AsmPaths must follow)")
+    out = {}
+    for solver in SparseSolver:
+        mo = ops_mod.MeshOperators(mesh, solver, fixed_sites=np.array([], dtype=np.int64), fix_psi=True)
+        note = ""
+        try:
+            mo.build_operators()
+        except (RuntimeError, AssertionError, ImportError, ModuleNotFoundError, NameError, TypeError) as e:
+            note = f"{type(e).__name__}: {str(e)[:60]}"
+        finally:
+            sp.linalg.use_solver(useUmfpack=False)
+        mats = []
+        for attr in ("divergence", "mu_gradient", "mu_laplacian", "mu_boundary_laplacian"):
+            M = getattr(mo, attr, None)
+            if M is None:
+                raise core.MachineryFailure(f"MeshOperators({solver.value}).{attr} was not assembled ({note})")
+            mats.append(np.asarray(M.toarray() if hasattr(M, "toarray") else M))
+        out[solver.value] = (*mats, note)
+    return out
+
 
 def concretise(tdgl, m):
     """Build the REAL Mesh / EdgeMesh objects of an integer instance through their public constructors."""
@@ -179,6 +213,12 @@ def replay_exact(tdgl, a, tmp):
     op("neumann", "code", "build", zeros, ops_mod.build_neumann_boundary_laplacian(mesh).toarray())
     op("covgrad", "code", "build", q, ops_mod.build_gradient(mesh, link_exponents=A).toarray())
     op("covlap", "code", "build", q, ops_mod.build_laplacian(mesh, link_exponents=A)[0].toarray())
+    # -- what MeshOperators.build_operators() assembles, for every documented sparse_solver option
+    for sv, (aD, aG, aL, aB, _) in assembled_operators(tdgl, mesh).items():
+        op("div", "code", "asm:" + sv, zeros, aD)
+        op("grad", "code", "asm:" + sv, zeros, aG)
+        op("lap", "code", "asm:" + sv, zeros, aL)
+        op("neumann", "code", "asm:" + sv, zeros, aB)
     # -- MeshOperators: first call builds (with another configuration), second call refreshes in place
     mo = ops_mod.MeshOperators(mesh, SparseSolver.SUPERLU, fixed_sites=np.array([], dtype=np.int64), fix_psi=True)
     q0 = [(x + 1 + e) % 4 for e, x in enumerate(q)]
@@ -420,20 +460,21 @@ def float_trace(tdgl, a, tmp):
         "grad_exact_on_linear": quanta(G @ f, (alpha * dirs[:, 0] + beta * dirs[:, 1]) / length,
                                        scale=max(abs(alpha), abs(beta))),
     }
-    # the same operators as assembled by MeshOperators.build_operators (what every solve uses)
-    mo0 = ops_mod.MeshOperators(mesh, SparseSolver.SUPERLU, fixed_sites=np.array([], dtype=np.int64), fix_psi=True)
-    lu_singular = False
-    try:
-        mo0.build_operators()
-    except RuntimeError as e:      # "Factor is exactly singular": the pure-Neumann Laplacian IS singular; the matrices are assembled before
-        if "singular" not in str(e):
-            raise
-        lu_singular = True
+    # the same operators as assembled by MeshOperators.build_operators (what every solve uses), for every
+    # documented sparse_solver option; each fact is the worst residual over the options
+    asm = assembled_operators(tdgl, mesh)
+    lu_singular = any("singular" in v[4] for v in asm.values())
+    Dr, Gr_, Lr_, Br = (refops.divergence(n, edges, dual, area), refops.gradient(n, edges, length),
+                        refops.laplacian(n, edges, dual, length, area), refops.neumann(n, edges, bidx, length, area))
     scalar.update({
-        "assembled_divergence_eq_formula": quanta(mo0.divergence.toarray(), refops.divergence(n, edges, dual, area)),
-        "assembled_mu_gradient_eq_formula": quanta(mo0.mu_gradient.toarray(), refops.gradient(n, edges, length)),
-        "assembled_mu_laplacian_eq_formula": quanta(mo0.mu_laplacian.toarray(), refops.laplacian(n, edges, dual, length, area)),
-        "assembled_boundary_eq_formula": quanta(mo0.mu_boundary_laplacian.toarray(), refops.neumann(n, edges, bidx, length, area)),
+        "assembled_divergence_eq_formula": max(quanta(v[0], Dr) for v in asm.values()),
+        "assembled_mu_gradient_eq_formula": max(quanta(v[1], Gr_) for v in asm.values()),
+        "assembled_mu_laplacian_eq_formula": max(quanta(v[2], Lr_) for v in asm.values()),
+        "assembled_boundary_eq_formula": max(quanta(v[3], Br) for v in asm.values()),
+        "assembled_lap_eq_div_grad": max(quanta(v[2], v[0] @ v[1]) for v in asm.values()),
+        "assembled_weighted_lap_symmetric": max(quanta(area[:, None] * v[2], (area[:, None] * v[2]).T) for v in asm.values()),
+        "assembled_lap_annihilates_constants": max(quanta(v[2] @ np.ones(n), np.zeros(n), scale=float(np.abs(v[2]).max()))
+                                                   for v in asm.values()),
     })
     kdim = int((np.abs(lam) <= 1e-9 * lscale).sum())
     ev = [{"ev": "facts", "group": "scalar", "facts": scalar, "kdim": kdim}]
@@ -474,7 +515,8 @@ def float_trace(tdgl, a, tmp):
         }})
         mo.set_link_exponents(A)
     return {"kind": "float", "mi": 0, "pat": 0, "geo": False, "heavy": False, "comps": comps, "mesh": {},
-            "ev": ev, "label": a.get("label", a["kind"]), "sites": int(n), "edges": int(m), "lu_singular": lu_singular}
+            "ev": ev, "label": a.get("label", a["kind"]), "sites": int(n), "edges": int(m), "lu_singular": lu_singular,
+            "solver_option_notes": {k: v[4] for k, v in asm.items()}}
 
 
 # ------------------------------------------------------------------ validation
@@ -660,7 +702,8 @@ def _options(tdgl, a, path, solve_time):
     return tdgl.SolverOptions(solve_time=solve_time, skip_time=0.0, dt_init=a.get("dt", 2.0 ** -6), dt_max=0.1,
                               adaptive=a.get("adaptive", False), adaptive_window=3, save_every=a.get("k", 10),
                               progress_interval=10 ** 9, pause_on_interrupt=False, output_file=path,
-                              include_screening=False, field_units="mT", current_units="uA", terminal_psi=0.0)
+                              include_screening=bool(a.get("screening", False)), screening_tolerance=a.get("screening_tol", 1e-3),
+                              field_units="mT", current_units="uA", terminal_psi=0.0)
 
 
 def _frames(path):
@@ -672,8 +715,14 @@ def _frames(path):
             g = f["data"][key]
             psi = np.array(g["psi"])
             mu = np.array(g["mu"])
-            out.append({"step": int(g.attrs["step"]), "abs_psi": np.abs(psi), "supercurrent": np.array(g["supercurrent"]),
-                        "normal_current": np.array(g["normal_current"]), "mu_diff": mu - mu[0], "psi": psi, "mu": mu})
+            fr = {"step": int(g.attrs["step"]), "abs_psi": np.abs(psi), "supercurrent": np.array(g["supercurrent"]),
+                  "normal_current": np.array(g["normal_current"]), "mu_diff": mu - mu[0], "psi": psi, "mu": mu,
+                  "induced_vector_potential": np.array(g["induced_vector_potential"]).ravel(), "iters": None}
+            if "running_state" in g and "screening_iterations" in g["running_state"]:
+                dts = np.atleast_1d(np.array(g["running_state"]["dt"])).reshape(-1)
+                its = np.atleast_1d(np.array(g["running_state"]["screening_iterations"])).reshape(-1)
+                fr["iters"] = [int(x) for x, d in zip(its, dts) if d > 0]
+            out.append(fr)
     return out
 
 
@@ -686,6 +735,15 @@ def _shift_parameter(tdgl, c):
         out[:, 1] = cy
         return out
     return tdgl.Parameter(constant_vector_potential, cx=float(c[0]), cy=float(c[1]))
+
+
+def _solve_frames(tdgl, *args, **kw):
+    """One real run -> (frames, None), or ([], message) when the solver refuses / fails to converge (an observation)."""
+    try:
+        sol = tdgl.solve(*args, **kw)
+    except RuntimeError as e:
+        return [], f"RuntimeError: {str(e)[:160]}"
+    return _frames(sol.path), None
 
 
 def gauge_run_pair(tdgl, a, tmp):
@@ -714,10 +772,11 @@ def gauge_run_pair(tdgl, a, tmp):
         if a["mode"] == "translate":
             dev2 = _device(tdgl, a)
             dev2.translate(dx=a["offset"][0], dy=a["offset"][1], inplace=True)
-            s1 = tdgl.solve(dev, _options(tdgl, a, os.path.join(work, "a.h5"), (N0 + N) * dt - dt / 2), applied_vector_potential=A1, **kw)
-            s2 = tdgl.solve(dev2, _options(tdgl, a, os.path.join(work, "b.h5"), (N0 + N) * dt - dt / 2),
-                            applied_vector_potential=ConstantField(field, field_units="mT", length_units="um"), **kw)
-            runs["A"], runs["B"] = _frames(s1.path), _frames(s2.path)
+            raised = {}
+            runs["A"], raised["A"] = _solve_frames(tdgl, dev, _options(tdgl, a, os.path.join(work, "a.h5"), (N0 + N) * dt - dt / 2),
+                                                   applied_vector_potential=A1, **kw)
+            runs["B"], raised["B"] = _solve_frames(tdgl, dev2, _options(tdgl, a, os.path.join(work, "b.h5"), (N0 + N) * dt - dt / 2),
+                                                   applied_vector_potential=ConstantField(field, field_units="mT", length_units="um"), **kw)
             info = {"sites": len(dev.mesh.sites)}
         else:
             c = a["shift"]                      # in mT * um
@@ -736,36 +795,49 @@ def gauge_run_pair(tdgl, a, tmp):
             seedB = tdgl.Solution.from_hdf5(s0.path)
             if not a.get("break_seed"):      # negative control: without the phase factor the two runs are NOT gauge equivalent
                 seedB.tdgl_data.psi = seedB.tdgl_data.psi * np.exp(1j * chi)
-            sA = tdgl.solve(dev, _options(tdgl, a, os.path.join(work, "a.h5"), N * dt - dt / 2), applied_vector_potential=A1,
-                            seed_solution=seedA, **kw)
-            sB = tdgl.solve(dev, _options(tdgl, a, os.path.join(work, "b.h5"), N * dt - dt / 2), applied_vector_potential=A2,
-                            seed_solution=seedB, **kw)
-            runs["A"], runs["B"] = _frames(sA.path), _frames(sB.path)
+            raised = {}
+            runs["A"], raised["A"] = _solve_frames(tdgl, dev, _options(tdgl, a, os.path.join(work, "a.h5"), N * dt - dt / 2),
+                                                   applied_vector_potential=A1, seed_solution=seedA, **kw)
+            runs["B"], raised["B"] = _solve_frames(tdgl, dev, _options(tdgl, a, os.path.join(work, "b.h5"), N * dt - dt / 2),
+                                                   applied_vector_potential=A2, seed_solution=seedB, **kw)
             info = {"sites": len(dev.mesh.sites), "shift_dimensionless": [float(x) for x in cdim],
                     "max_abs_chi": float(np.abs(chi).max())}
             # psi itself must differ between the gauges by exp(i chi) up to a global phase: recorded as an extra
             # gauge-covariant observable |psi_B conj(psi_A exp(i chi))| vs |psi_A|^2 is implied by abs_psi; the
             # relative phase pattern is checked through the supercurrent.
+        # whether each run completed is itself an observation (1000 quanta apart: never within tolerance)
+        outcome = [{"run": nm, "key": "outcome (0 = completed, 1000 = raised)", "q": [1000 if raised[nm] else 0]} for nm in ("A", "B")]
+        if raised["A"] or raised["B"]:
+            info.update({"raised": raised, "frames": [len(runs["A"]), len(runs["B"])], "worst_relative_difference": {"outcome": 1.0},
+                         "psi_moved": 0.0, "max_supercurrent": 0.0, "steps": [0, 0], "max_phase_difference_between_gauges": 0.0,
+                         "screening_iterations": {"A": [], "B": []}})
+            return {"args": a, "ev": outcome, "ev_exact": copy.deepcopy(outcome), "info": info}
         # quantisation: 1e-6 of the scale of each quantity over both runs
-        floor = {"abs_psi": 1.0, "supercurrent": 1e-3, "normal_current": 1e-3, "mu_diff": 1e-3}
-        scale = {k: max(floor[k], max(float(np.abs(fr[k]).max()) for r in runs.values() for fr in r)) for k in OBS}
+        floor = {"abs_psi": 1.0, "supercurrent": 1e-3, "normal_current": 1e-3, "mu_diff": 1e-3, "induced_vector_potential": 1e-6}
+        obs = OBS + (["induced_vector_potential"] if a.get("screening") else [])
+        scale = {k: max(floor[k], max(float(np.abs(fr[k]).max()) for r in runs.values() for fr in r)) for k in obs}
         if a["mode"] != "translate":
             scale["abs_psi"] = 1.0
-        ev, worst = [], {k: 0.0 for k in OBS}
+        ev, ev_exact, worst = list(outcome), [], {k: 0.0 for k in obs}
         for name in ("A", "B"):
             for fr in runs[name]:
-                for k in OBS:
+                for k in obs:
                     ev.append({"run": name, "key": f"step{fr['step']}/{k}", "q": [int(round(float(x) / scale[k] * 1e6)) for x in fr[k]]})
+                if a.get("screening") and fr["iters"] is not None:
+                    # the per-step record of the number of screening iterations (bit-for-bit relation: tolerance 0)
+                    ev_exact.append({"run": name, "key": f"steps up to {fr['step']}/screening_iterations", "q": fr["iters"]})
         for fa, fb in zip(runs["A"], runs["B"]):
-            for k in OBS:
+            for k in obs:
                 worst[k] = max(worst[k], float(np.abs(fa[k] - fb[k]).max()) / scale[k])
+        if a.get("screening"):
+            info["screening_iterations"] = {nm: [x for fr in runs[nm] for x in (fr["iters"] or [])] for nm in ("A", "B")}
         info.update({"frames": [len(runs["A"]), len(runs["B"])], "steps": [runs["A"][-1]["step"], runs["B"][-1]["step"]],
                      "scale": scale, "worst_relative_difference": worst,
                      "psi_moved": float(np.abs(runs["A"][-1]["abs_psi"] - runs["A"][0]["abs_psi"]).max()),
                      "max_supercurrent": float(max(np.abs(fr["supercurrent"]).max() for fr in runs["A"])),
                      "max_phase_difference_between_gauges": float(max(np.abs(np.angle(fb["psi"] * np.conj(fa["psi"]) + 1e-300)).max()
                                                                    for fa, fb in zip(runs["A"], runs["B"])))})
-        return {"args": a, "ev": ev, "info": info}
+        return {"args": a, "ev": ev, "ev_exact": ev_exact, "info": info}
     finally:
         tempfile.tempdir = old_tempdir
         os.chdir(cwd)
